@@ -40,7 +40,8 @@ ASSUMPTIONS = {
     "C06": ["std HashMap / HashSet iteration order is an arbitrary permutation and nothing else leaks; runs in fresh processes are not part of this check"],
     "C12": ["the ChaCha8 word stream is an oracle supplied by the harness (rand_chacha); encode/decode round trips are executed with scale-value, not proved"],
     "C14": ["the ChaCha8 word stream is an oracle supplied by the harness (rand_chacha); syn::parse2::<Expr> is run on every observed example"],
-    "C17": ["scale-info's PortableRegistry::retain is used as is for the restriction pairs"],
+    "C17": ["scale-info's PortableRegistry::retain is used as is for the restriction pairs (its id map names the retained ids)",
+            "the ChaCha8 word stream is an oracle supplied by the harness (rand_chacha); encode/decode round trips are executed with scale-value, not proved"],
     "C18": ["encoding equality with the variant payload relies on the unvalidated derive semantics (see C01)"],
 }
 
@@ -59,7 +60,7 @@ ASSUMPTIONS_THOROUGH = {
 COMPILE_TIER_PARTS = {"C02": "a", "C01": "ab", "C18": "ac"}
 
 # extra Coq targets a property needs besides Properties/<id>.vo and Corr/Run<id>.vo
-EXTRA_TARGETS = {}
+EXTRA_TARGETS = {"C17": ["Corr/RunC17.vo"]}   # case type of the C17 run (pair + retained artefacts)
 # properties sharing the type-generator case family use Corr/CheckTG.v
 TG_PROPS = {"C01", "C02", "C05", "C06", "C07", "C08", "C09", "C10", "C17", "C18"}
 
